@@ -723,7 +723,7 @@ theorem nl_advance (k : Keys) (c : RCfg) (cL : Who) (sg : Nat → Sig) (j L : Na
   | succ j =>
     refine ⟨none, s.ghost ++ [.adv s.view (hqc sg (j + 1)).view false], ?_⟩
     have hv : s.view = j + 1 := by rw [hbase.view]; omega
-    rw [advanceView_move k c s _ _ ha hver hl (by rw [hv, hqc_view]; exact Nat.le_refl _)]
+    rw [advanceView_move k c s _ _ ha hver hl (by rw [hv, hqc_view])]
     have hnl : ¬ c.leader (s.view + 1) = c.id := by rw [hv, hlead]; exact fun e => hne e.symm
     rw [if_neg hnl]
     have hhq : ¬ (hb cL sg (j + 1)).view ≤ s.highQC.view := by
@@ -1369,7 +1369,7 @@ theorem leader_vote_quorum (k : Keys) (c : RCfg) (w : Who) (sg : Nat → Sig) (j
     (by show sC.view + 1 = _; rw [hsCview]) hmhq (by show s.lastVoted ≤ _; rw [hbase.lastVoted]; exact Nat.le_refl _)
     hld.lastProposed (by show s.nextCmd = _; rw [hld.nextCmd]; exact hcnt.symm) hbase'.lock hbase'.committed hbase'.blocks hbase'.fetchable hbase'.prune hsCvotes hf hqcok
   have hadv : (advanceView k c { qc := some qc }).run sC = pure ((), F) := by
-    rw [advanceView_move k c sC qc (hb w sg' (j + 1)) ha hver hlk' (by rw [hsCview]; show j + 1 ≤ (hqc sg' (j + 1)).view; rw [hqc_view]; exact Nat.le_refl _)]
+    rw [advanceView_move k c sC qc (hb w sg' (j + 1)) ha hver hlk' (by rw [hsCview]; show j + 1 = (hqc sg' (j + 1)).view; rw [hqc_view])]
     rw [if_pos (hlead _), hmhq]
     exact hrun
   have ht2 : (tick k c).run sB = pure (true, F) :=
